@@ -335,8 +335,20 @@ func (a *Accounts) get(address types.Address) *Model {
 		account.coins = coins
 	}
 
-	a.setToMap(address, account)
-	return account
+	return a.setToMapIfAbsent(address, account)
+}
+
+// setToMapIfAbsent publishes the freshly loaded model unless another goroutine published one for the
+// address since getFromMap missed: the model already in the map may carry uncommitted changes.
+func (a *Accounts) setToMapIfAbsent(address types.Address, model *Model) *Model {
+	a.lock.Lock()
+	defer a.lock.Unlock()
+
+	if existing := a.list[address]; existing != nil {
+		return existing
+	}
+	a.list[address] = model
+	return model
 }
 
 func (a *Accounts) getOrNew(address types.Address) *Model {
@@ -351,7 +363,7 @@ func (a *Accounts) getOrNew(address types.Address) *Model {
 			dirtyBalances: map[types.CoinID]struct{}{},
 			isNew:         true,
 		}
-		a.setToMap(address, account)
+		account = a.setToMapIfAbsent(address, account)
 	}
 
 	return account
